@@ -166,7 +166,7 @@ Definition add_indents_sentence (i1 i2 : str) (lines : list str) : list str :=
 Definition line_wrap_by_sentence_base (width min_line_len : Z) (md : bool) : wrapper :=
   fun text i1 i2 =>
     let text := replace_ch 10 32 text in
-    if width <=? 0 then ret (i1 ++ strip text)
+    if width <=? 0 then ret (i1 ++ strip (collapse_ws text))
     else
       let sentences := split_sentences_regex text 0 in
       lines <- sentence_loop (fun s col => wrap_paragraph_lines_md s width col (len i2) true true md)
